@@ -19,7 +19,7 @@ PostOK(j) == LET o == j.post  S == st' IN
     /\ \A k \in Keys : S.amap[k] = o.amap[k]
     /\ \A k \in DOMAIN o.amap : k \in Keys \/ o.amap[k] = 0        \* no binding under a key the model does not know
     /\ \A w \in Writers : S.wpc[w] = o.wpc[w] /\ (S.wpc[w] # "idle" => S.wc[w] = o.wc[w] /\ S.wx[w] = o.wx[w])
-    /\ S.dpc = o.dpc /\ S.rpc = o.rpc
+    /\ S.dpc = o.dpc /\ S.rpc = o.rpc /\ S.kpc = o.kpc
 ResetTo == st' = S0
 TInit == Init /\ l = 2 /\ Tr[1].ev = "Reset"
 Ev(e) == l <= Len(Tr) /\ Tr[l].ev = e /\ l' = l + 1
@@ -40,6 +40,9 @@ TNext == \/ Ev("GetConn") /\ GetConn(J.u, J.f) /\ PostOK(J)
          \/ Ev("RUnlist") /\ RUnlist /\ PostOK(J)
          \/ Ev("RUnmap") /\ RUnmap /\ PostOK(J)
          \/ Ev("CloseConn") /\ CloseConn(J.c) /\ PostOK(J)
+         \/ Ev("KUnlist") /\ KUnlist /\ PostOK(J)
+         \/ Ev("KUnmap") /\ KUnmap /\ PostOK(J)
+         \/ Ev("GetStale") /\ GetStale(J.u, J.f) /\ J.c = st.listed[J.f][J.u] /\ PostOK(J)
          \/ Ev("CloseMux") /\ CloseMux /\ PostOK(J)
          \/ Ev("WriteOp") /\ WriteOp(J.c, J.x) /\ PostOK(J)
          \/ Ev("DispatchOp") /\ DispatchOp(J.x, J.kd) /\ J.t = Target(st, J.x, J.kd) /\ PostOK(J)
